@@ -40,6 +40,8 @@ CLAIMED = {
 }
 
 CLAIMED.update({
+    "C14": ("NARROW: symbolic execution of the hand-written Schema.MarshalJSONTo / UnmarshalJSONFrom SSA against a token-level contract model of the JSON library that is itself "
+            "validated against the real library on every run; everything the library decides alone (text layout, malformed input) is outside the claim", "DESIGN.md C14"),
     "C15": ("the input of schema generation is a type, so the type itself is symbolic: reflect.Type is served by descriptors whose kind is a solver variable and whose "
             "edges, fields, tags, sharing and cycles are decided by forking; the real schemaForType / buildCodec run on them and are compared with a reference transcription of the mapping", "DESIGN.md C15"),
     "C18": ("all strings <= 40 bytes for no-panic; the full RFC 3339 grammar with every digit a solver variable for agreement with time.Date on the parsed fields; "
@@ -49,9 +51,7 @@ CLAIMED.update({
 })
 
 NA_DEFAULT = "not claimed (see DESIGN.md section 6)"
-NA = {
-    "C14": "solver-based checking of the real code cannot reach it: key order, whitespace, unknown attributes, JSON validity and rejection of malformed text are decided inside go-json-experiment/json + jsontext (reflection-driven (un)marshalling, a streaming tokenizer whose tokens are unexported state of foreign types); the engine cannot execute that code and after stubbing it every clause would be decided by the stub (DESIGN.md section 6). No other technique is substituted.",
-}
+NA = {}
 
 checks = []
 for p in props:
